@@ -1,8 +1,9 @@
 (* C08 -- property theorems only.  Bodies live in Proofs.v / Code.v / SrcProofs.v / FProofs.v / Cond.v / Final.v.
    Angles are in radians inside [true_sep]; [from_rad uout] converts to the requested unit. *)
 From Coq Require Import Reals Lra QArith Qreals List.
+Import ListNotations.
 From Coq Require PrimFloat.
-From EsVerif.C08 Require Import Gen Model Spec Proofs Code SrcLib Src SrcProofs SrcLibF SrcF FProofs Cond Cond2 Cond3 Final.
+From EsVerif.C08 Require Import Gen Model Spec Proofs Code SrcLib Src SrcProofs SrcLibF SrcF FProofs Cond Cond2 Cond3 Final Rounding Rounding2 Rounding3 ArrayLayer Examples.
 Open Scope R_scope.
 
 (* The two formulas of the chord-based function are the great-circle angle of unit vectors. *)
@@ -218,3 +219,158 @@ Proof.
   - rewrite sphdist_code_exact, B. unfold from_rad, r2d. field. apply PI_neq0.
   - split; [rewrite gcirc_code_exact; exact A | rewrite C; lra].
 Qed.
+
+(* ===================================================================================================== *)
+(* Proof-deepening round                                                                                  *)
+(* ===================================================================================================== *)
+
+(* --- the array layer: what the element-wise reading of Src.v takes for granted, proved on lists --- *)
+
+(* `if np.any(w): d[w] = f(x[:, w])` (selection by a boolean mask, values computed on the selected columns only,
+   stored back through the same mask) is the element-wise conditional, for every f, mask, columns and target *)
+Theorem C08_masked_store_elementwise : forall (A B : Type) (f : A -> B) (w : list bool) (xs : list A) (d : list B),
+  length w = length xs -> length w = length d ->
+  (if existsb (fun b => b) w then scatter w d (map f (compress w xs)) else d) = cond3 f w xs d.
+Proof. exact (fun A B => @guarded_masked_store A B). Qed.
+
+(* sphdist and gcirc written at list level with these primitives (both masked stores of sphdist, the unit
+   conversion, clip, the exact-zero store) equal the element-wise reading of the source mapped over the pairs;
+   one output per pair *)
+Theorem C08_array_is_elementwise :
+  (forall uin uout p, sphdist_vec uin uout p = map (fun q : pair4 => let '(a, b, c, d) := q in sphdist_src uin uout a b c d) p)
+  /\ (forall p, gcirc_vec p = map (fun q : pair4 => let '(a, b, c, d) := q in gcirc_src a b c d) p)
+  /\ (forall uin uout p, length (sphdist_vec uin uout p) = length p /\ length (gcirc_vec p) = length p).
+Proof. exact array_is_elementwise_thm. Qed.
+
+(* "the same for scalar and array inputs": element i of any array call, the length-1 call and the scalar value agree *)
+Theorem C08_scalar_is_array : forall uin uout a b c d p i, nth_error p i = Some (a, b, c, d) ->
+  nth_error (sphdist_vec uin uout p) i = Some (sphdist_src uin uout a b c d)
+  /\ nth_error (gcirc_vec p) i = Some (gcirc_src a b c d)
+  /\ sphdist_vec uin uout [(a, b, c, d)] = [sphdist_src uin uout a b c d].
+Proof. exact scalar_is_array. Qed.
+
+(* a scalar first point broadcast against arrays for the second point *)
+Theorem C08_broadcast_first_point : forall uin uout a b l,
+  sphdist_vec uin uout (bcast_first a b l) = map (fun cd => sphdist_src uin uout a b (fst cd) (snd cd)) l.
+Proof. exact sphdist_vec_bcast. Qed.
+
+(* history: the model of a call is a function of the call's own arguments; a process state of ANY type is carried
+   along unchanged and never read, so the answer is the same after any history and in any state *)
+Theorem C08_history_irrelevant :
+  (forall (S : Type) (st : S) cs, run S st cs = (st, map answer cs))
+  /\ (forall (S : Type) (st st' : S) before c,
+        nth_error (snd (run S st (before ++ [c]))) (length before) = Some (answer c) /\ snd (run S st' [c]) = [answer c]).
+Proof. exact history_thm. Qed.
+
+(* --- conditional rounding theorems: IF numpy/libm meet the stated error budgets THEN the result is within the
+       statement's tolerance.  Every computed quantity is any real within its budget of the exact function of the
+       computed quantities it was obtained from. --- *)
+
+Theorem C08_sin_cos_lipschitz :
+  (forall a b, Rabs (sin a - sin b) <= Rabs (a - b)) /\ (forall a b, Rabs (cos a - cos b) <= Rabs (a - b)).
+Proof. exact lipschitz_thm. Qed.
+
+(* np.deg2rad(x) = fl(x * fl(pi/180)) *)
+Theorem C08_deg2rad_rounding : forall x dc dm uu, 0 <= uu <= / 4 -> Rabs dc <= uu -> Rabs dm <= uu ->
+  Rabs (x * (PI / 180 * (1 + dc)) * (1 + dm) - d2r x) <= Rabs (d2r x) * (2 * uu + uu * uu).
+Proof. exact d2r_rounding. Qed.
+
+(* the unit vector: argument errors a_th, a_ph; libm sin/cos within s; products within relative e *)
+Theorem C08_vector_stage : forall th ph th' ph' cth sth cph sph dx dy a_th a_ph s e,
+  0 <= a_th -> 0 <= a_ph -> 0 <= s -> 0 <= e ->
+  Rabs (th' - th) <= a_th -> Rabs (ph' - ph) <= a_ph ->
+  Rabs (cth - cos th') <= s -> Rabs (sth - sin th') <= s -> Rabs (cph - cos ph') <= s -> Rabs (sph - sin ph') <= s ->
+  Rabs dx <= e -> Rabs dy <= e ->
+  close (eta_of a_th a_ph s e) (point th ph) (cth * cph * (1 + dx), sth * cph * (1 + dy), sph).
+Proof. exact vector_stage. Qed.
+
+(* the chain differences - squares - sum - sqrt with relative error e per operation: relative error (1+e)^4 - 1 *)
+Theorem C08_chain_stage : forall (u' v' : vec3) d11 d12 d21 d22 d31 d32 d4 d5 d6 e,
+  0 <= e <= / 2 ->
+  Rabs d11 <= e -> Rabs d12 <= e -> Rabs d21 <= e -> Rabs d22 <= e -> Rabs d31 <= e -> Rabs d32 <= e ->
+  Rabs d4 <= e -> Rabs d5 <= e -> Rabs d6 <= e ->
+  let '(x1, y1, z1) := u' in let '(x2, y2, z2) := v' in
+  let t1 := ((x1 - x2) * (1 + d11)) * ((x1 - x2) * (1 + d11)) * (1 + d12) in
+  let t2 := ((y1 - y2) * (1 + d21)) * ((y1 - y2) * (1 + d21)) * (1 + d22) in
+  let t3 := ((z1 - z2) * (1 + d31)) * ((z1 - z2) * (1 + d31)) * (1 + d32) in
+  let dsq := ((t1 + t2) * (1 + d4) + t3) * (1 + d5) in
+  let d' := sqrt dsq * (1 + d6) in
+  0 <= dsq /\ 0 <= d' /\ Rabs (d' - norm3 (vsub u' v')) <= ((1 + e) * (1 + e) * (1 + e) * (1 + e) - 1) * norm3 (vsub u' v').
+Proof. exact chain_stage. Qed.
+
+(* chord branch, parametric in the budgets *)
+Theorem C08_chord_branch_rounding : forall eta rho tau u v u' v' d' a',
+  0 <= eta -> 0 <= rho -> is_unit u -> is_unit v -> close eta u u' -> close eta v v' ->
+  Rabs (d' - norm3 (vsub u' v')) <= rho * norm3 (vsub u' v') ->
+  0 <= d' -> d' * d' <= T_room -> nsq (vsub u v) <= T_room ->
+  Rabs (a' - asin (/ 2 * d')) <= tau ->
+  Rabs (2 * a' - angle u v) <= chord_bound eta rho tau.
+Proof. exact chord_branch_rounding. Qed.
+
+(* the room used above covers the branch decision of the source: computed chord^2 below the threshold literal and a
+   chord-length error below 1e-5 put the exact chord^2 below T_room *)
+Theorem C08_chord_room : sphdist_thr <= T_room
+  /\ (forall d d', 0 <= d -> 0 <= d' -> d' * d' <= sphdist_thr -> Rabs (d - d') <= / 100000 -> d * d <= T_room).
+Proof. exact (conj thr_below_room exact_below_room). Qed.
+
+(* degrees out: one more constant and product *)
+Theorem C08_degrees_out : forall r R E eps, Rabs (r - R) <= E -> 0 <= R <= PI -> 0 <= E ->
+  Rabs (r * (180 / PI) * (1 + eps) - r2d R) <= 180 / PI * (E * (1 + Rabs eps)) + 180 * Rabs eps.
+Proof. exact degrees_out. Qed.
+
+(* cross-product branch, parametric and with binary64 budgets: within 1e-12 degree *)
+Theorem C08_cross_branch_rounding : forall eta kappa rho tau eps_pi e u v u' v' c' s' a' pif dl,
+  0 <= eta -> 0 <= kappa -> 0 <= rho -> 0 <= tau -> 0 <= eps_pi -> 0 <= e <= / 2 ->
+  is_unit u -> is_unit v -> close eta u u' -> close eta v v' ->
+  3989 / 1000 <= nsq (vsub u v) ->
+  close kappa (cross u' v') c' ->
+  Rabs (s' - norm3 c') <= rho * norm3 c' -> 0 <= s' <= 11 / 100 -> norm3 c' <= 12 / 100 ->
+  Rabs (a' - asin s') <= tau -> Rabs (pif - PI) <= eps_pi -> Rabs dl <= e -> Rabs a' <= 1 / 2 ->
+  Rabs ((pif - a') * (1 + dl) - angle u v) <= cross_bound eta kappa rho tau eps_pi e.
+Proof. exact cross_branch_rounding. Qed.
+
+(* gcirc: forward error of cosdis, clipping never hurts, sharp conditioning of acos.  A worst-case analysis cannot
+   reach the statement's 2e-6 degree (sharper partial): with binary64 budgets 7e-6 degree for ALL inputs *)
+Theorem C08_gcirc_rounding : forall sg r e tau s1 c1 s2 c2 cr S1 C1 S2 C2 CR d1 d2 d3 d4 a',
+  0 <= sg -> 0 <= r -> 0 <= e -> 0 <= tau ->
+  Rabs s1 <= 1 -> Rabs c1 <= 1 -> Rabs s2 <= 1 -> Rabs c2 <= 1 -> Rabs cr <= 1 ->
+  -1 <= s1 * s2 + c1 * c2 * cr <= 1 ->
+  Rabs (S1 - s1) <= sg -> Rabs (C1 - c1) <= sg -> Rabs (S2 - s2) <= sg -> Rabs (C2 - c2) <= sg -> Rabs (CR - cr) <= r ->
+  Rabs d1 <= e -> Rabs d2 <= e -> Rabs d3 <= e -> Rabs d4 <= e ->
+  cosdis_budget sg r e <= 2 ->
+  let cosdis' := (S1 * S2 * (1 + d1) + C1 * C2 * (1 + d2) * CR * (1 + d3)) * (1 + d4) in
+  Rabs (a' - acos (clip (-1) 1 cosdis')) <= tau ->
+  Rabs (a' - acos (s1 * s2 + c1 * c2 * cr)) <= tau + 2 * asin (sqrt (cosdis_budget sg r e / 2)).
+Proof. exact gcirc_rounding. Qed.
+
+(* The three conditional theorems instantiated with binary64 budgets (u = 2^-53; longitudes within one turn: argument
+   errors 12.57 u / 3.15 u; libm within 1 ulp; one rounding per arithmetic operation), stated together because they
+   share the numeric facts closed by Interval.  The three statements are spelled out in Examples.v:
+     chord_branch_binary64_stmt :  ... -> Rabs (2 * a' - angle (point th1 ph1) (point th2 ph2)) <= tol_in Rad 1e-11
+     cross_branch_binary64_stmt :  ... -> Rabs ((pif - a') * (1 + dl) - angle u v) <= tol_in Rad 1e-12
+     gcirc_binary64_stmt        :  4 u + 2 asin (sqrt (cosdis_budget ... / 2)) <= tol_in Rad 7e-6
+   i.e. the chord branch meets the statement's 1e-11 degree, the cross-product branch 1e-12 degree, and the worst-case
+   bound for gcirc is 7e-6 degree (the statement's 2e-6 is not reachable by a worst-case analysis: sharper partial). *)
+Theorem C08_rounding_binary64 : chord_branch_binary64_stmt /\ cross_branch_binary64_stmt /\ gcirc_binary64_stmt.
+Proof. exact rounding_binary64_thm. Qed.
+
+(* non-vacuity of the new theorems: concrete, non-trivial instances satisfying every hypothesis *)
+Example C08_chord_branch_binary64_nonvacuous :
+  let d' := norm3 (vsub (point 0 0) (point (PI / 2) 0)) in
+  Rabs (2 * asin (/ 2 * d') - angle (point 0 0) (point (PI / 2) 0)) <= tol_in Rad 1e-11.
+Proof. exact chord_branch_binary64_instance. Qed.
+
+Example C08_cross_branch_binary64_nonvacuous :
+  Rabs ((PI - asin 0) * (1 + 0) - angle (point 0 0) (point PI 0)) <= tol_in Rad 1e-12.
+Proof. exact cross_branch_binary64_instance. Qed.
+
+Example C08_gcirc_rounding_nonvacuous :
+  Rabs (acos (clip (-1) 1 ((0 * 0 * (1 + 0) + 1 * 1 * (1 + 0) * 0 * (1 + 0)) * (1 + 0))) - acos (0 * 0 + 1 * 1 * 0))
+  <= tol_in Rad 7e-6.
+Proof. exact gcirc_rounding_instance. Qed.
+
+Example C08_array_layer_nonvacuous :
+  sphdist_vec Deg Deg [(0, 0, 90, 0); (0, 0, 180, 0); (5, 5, 5, 5)]
+  = [sphdist_code Deg Deg 0 0 90 0; sphdist_code Deg Deg 0 0 180 0; 0]
+  /\ length (gcirc_vec [(0, 0, 90, 0); (0, 0, 180, 0)]) = 2%nat.
+Proof. exact array_layer_instance. Qed.
